@@ -1,0 +1,7 @@
+//go:build !verif
+
+package internal
+
+import "time"
+
+func verifTimerReset(*EventTimer, time.Duration) {}
